@@ -17,7 +17,7 @@ import engine_r5 as r5
 PROPS = {
     "C02": {
         "controls": ["PAN-1", "PAN-3", "ERR-1", "PAN-7"],
-        "rules": [("PAN-1", pan.pan1), ("PAN-2", pan.pan2), ("PAN-3", pan.pan3), ("PAN-4", pan.pan4), ("PAN-5", pan.pan5), ("PAN-6", pan.pan6), ("PAN-7", pan.pan7), ("PAN-8", pan.pan8), ("PAN-9", pan.pan9), ("PAN-10", pan.pan10), ("PAN-11", pan.pan11), ("PAN-12", r5.pan12), ("SUP-6", sup.sup6), ("ERR-1", err.err1)],
+        "rules": [("PAN-1", pan.pan1), ("PAN-2", pan.pan2), ("PAN-3", pan.pan3), ("PAN-4", pan.pan4), ("PAN-5", pan.pan5), ("PAN-6", pan.pan6), ("PAN-7", pan.pan7), ("PAN-8", pan.pan8), ("PAN-9", pan.pan9), ("PAN-10", pan.pan10), ("PAN-11", pan.pan11), ("PAN-12", r5.pan12), ("PAN-13", r5.pan13), ("SUP-6", sup.sup6), ("ERR-1", err.err1)],
         "explanation": "Decides four panic mechanisms whose presence is visible in the shape of the code (each a necessary condition of C02), not termination or "
                        "value-dependent panics. PAN-1: forward liveness of every RefCell guard on MIR plus interprocedural borrow summaries (cells = SubRule fields / "
                        "&RefCell parameters mapped through call sites): no borrow, and no call that may borrow, of a cell while a conflicting guard on it is live. "
@@ -25,7 +25,7 @@ PROPS = {
                        "producer table). PAN-3/PAN-4: a may-analysis of the parsers' HIR gives, per container (Input, Output, Env, Set, Structure, Optional; "
                        "(de)romaniser sides), the element kinds the grammar can put there; a tag analysis of the interpreter gives the containers whose elements reach "
                        "each match with an unreachable!/unimplemented! arm; the intersection must be empty (EmptySet/Metathesis discharged by four checked rule-type "
-                       "conditions). PAN-5: the cursor written back to the scan loop through next_pos is dominated by SegPos::increment on that cursor (deletion and substitution). PAN-6: lexer/parser alphabet agreement: every modifier value Lexer::get_feature / AliasLexer::get_feature can put into a Feature token (char literals, `matches!` ranges and ascii classes of the gate, and '-'+class) is listed by an arm of the corresponding curr_token_to_modifier, whose default arm is unreachable!(). PAN-7: no str/String anywhere in lib or bin is range-sliced at an offset that is not a byte offset of that same string (zero slices on the pinned tree; the positive control keeps the rule alive). PAN-8: functions that index a container with a `usize` parameter they never compare with anything are summarised (to a fixed point through calls); at every call site that passes them a cursor which is advanced by arithmetic inside a loop, every path from an advance to the call passes a comparison of that cursor (Word::render's `j` and the alias matchers). PAN-9 (progress of the insertion loop, MIR): in SubRule::insert every path through one iteration of the loop over the output elements — from the `Some(state)` edge back to the loop head — passes an edit of the word or an advance of the cursor; an iteration that does neither leaves (word, cursor) unchanged and `transform`'s insertion loop finds the same insertion point forever. PAN-10 (no empty term, MIR): every push onto a Vec<Vec<Item>> term list (Parser::get_input / get_output) pushes a non-empty `vec![..]` literal or a local that cannot reach the push once its own `is_empty()` test answered true (repeated tests of the same local are correlated; a new assignment of the local ends the walk): Rule::split_into_subrules and the interpreter read `term[0]`. PAN-11 (width discipline): every multiplication / pow at an 8- or 16-bit width in the library is listed with the bound that makes it safe (today one: the four-digit fold at the end of concat_tone); the join `prev * 10^k + aft` is done at u64. SUP-6 (length bookkeeping, decision-table evaluation): for all 8 consistent sign combinations of [long, overlong] and run lengths 1..3, the number returned by Syllable::apply_supras equals run-after minus run-before (inserts / removes on `segments` are counted as they are executed, helper methods on `self` are looked through): every SubRule caller advances its cursor by that number, and a too-small number makes the rule re-match its own output forever. PAN-12 (cursor bounds, interprocedural MIR): a function that does `get_seg_at(pos).unwrap()/expect()` without a dominating bounds test of that cursor (in_bounds / out_of_bounds, or a get_seg_at whose Option is inspected) requires an in-bounds cursor of its callers, to a fixed point through calls that hand the cursor on; in every loop that calls a requiring function, every path from an advance of the cursor (SegPos::increment or a callee taking it by &mut) to the call passes a bounds test or a restore from a snapshot taken outside the loop. ERR-1: no formatter call resolves to an unreachable!() stub.",
+                       "conditions). PAN-5: the cursor written back to the scan loop through next_pos is dominated by SegPos::increment on that cursor (deletion and substitution). PAN-6: lexer/parser alphabet agreement: every modifier value Lexer::get_feature / AliasLexer::get_feature can put into a Feature token (char literals, `matches!` ranges and ascii classes of the gate, and '-'+class) is listed by an arm of the corresponding curr_token_to_modifier, whose default arm is unreachable!(). PAN-7: no str/String anywhere in lib or bin is range-sliced at an offset that is not a byte offset of that same string (zero slices on the pinned tree; the positive control keeps the rule alive). PAN-8: functions that index a container with a `usize` parameter they never compare with anything are summarised (to a fixed point through calls); at every call site that passes them a cursor which is advanced by arithmetic inside a loop, every path from an advance to the call passes a comparison of that cursor (Word::render's `j` and the alias matchers). PAN-9 (progress of the insertion loop, MIR): in SubRule::insert every path through one iteration of the loop over the output elements — from the `Some(state)` edge back to the loop head — passes an edit of the word or an advance of the cursor; an iteration that does neither leaves (word, cursor) unchanged and `transform`'s insertion loop finds the same insertion point forever. PAN-10 (no empty term, MIR): every push onto a Vec<Vec<Item>> term list (Parser::get_input / get_output) pushes a non-empty `vec![..]` literal or a local that cannot reach the push once its own `is_empty()` test answered true (repeated tests of the same local are correlated; a new assignment of the local ends the walk): Rule::split_into_subrules and the interpreter read `term[0]`. PAN-11 (width discipline): every multiplication / pow at an 8- or 16-bit width in the library is listed with the bound that makes it safe (today one: the four-digit fold at the end of concat_tone); the join `prev * 10^k + aft` is done at u64. SUP-6 (length bookkeeping, decision-table evaluation): for all 8 consistent sign combinations of [long, overlong] and run lengths 1..3, the number returned by Syllable::apply_supras equals run-after minus run-before (inserts / removes on `segments` are counted as they are executed, helper methods on `self` are looked through): every SubRule caller advances its cursor by that number, and a too-small number makes the rule re-match its own output forever. PAN-12 (cursor bounds, interprocedural MIR): a function that does `get_seg_at(pos).unwrap()/expect()` without a dominating bounds test of that cursor (in_bounds / out_of_bounds, or a get_seg_at whose Option is inspected) requires an in-bounds cursor of its callers, to a fixed point through calls that hand the cursor on; in every loop that calls a requiring function, every path from an advance of the cursor (SegPos::increment or a callee taking it by &mut) to the call passes a bounds test or a restore from a snapshot taken outside the loop. PAN-13 (progress of the unbounded optional, MIR): in context_match_option every trip round the extension loop whose bound derives from `unwrap_or(usize::MAX)` passes a SegPos comparison (cursor before vs after the repetition): a zero-width optional body ends the loop. ERR-1: no formatter call resolves to an unreachable!() stub.",
         "does_not_decide": "termination in general (e.g. `$ > $` spins although the cursor is advanced); index / slice / arithmetic / Option::unwrap panics that depend on cursor values (e.g. `r...l > l r r`); stack depth of the recursive matcher.",
         "assumptions": ["all SubRule methods are invoked on the same SubRule object (cells named by field)"],
     },
